@@ -14,7 +14,8 @@ EXTRA_BASES = {
         "import x\n\nasync \\\ndef h(a):\n    return a\n\n@deco \\\n  (1)\ndef k():\n    pass\n",
         'def d():\n    """doc\x0cwith form feed\u2028and separator\n    end"""\n\ndef e():\n    x = 1\x0c\n    return x\n',
     ],
-    "C": ["#include <stdio.h>\n#define X(a) \\\n  (a)\nint main(int argc, char **argv) {\n  for (;;) { break; }\n  return 0;\n}\n",
+    "C": ["static int first(int a, int b) {\n  return a + b;\n}\n\nint table[] = { 1, 2, 3 };\n\nvoid second() {\n  report(combine(alpha, beta, gamma, delta));\n  log(wrap(inner(x), y), z);\n}\nstruct point origin = { 0, 0 };\n",
+          "#include <stdio.h>\n#define X(a) \\\n  (a)\nint main(int argc, char **argv) {\n  for (;;) { break; }\n  return 0;\n}\n",
           "static int f(void);\nstruct s { int a; };\nint f(void)\n{\n  return g(1)(2);\n}\n"],
     "C++": ["namespace n {\nclass K {\n public:\n  K() : a(1) {}\n  int m() const { return a; }\n  int a;\n};\n}\ntemplate <typename T> T id(T t) { return t; }\n"],
     "C#": ["using System;\nnamespace N {\n  class K {\n    public int P { get; set; }\n    public int M(int a) => a;\n    void F() { Action a = () => { }; }\n  }\n}\n"],
@@ -100,7 +101,10 @@ def apply_op(lang, text, op):
         if lang == "Python":
             variants = ["".join(" " * i + f"def f{i}():\n" for i in range(n)) + " " * n + "pass\n", "x = " + "(" * n + "1" + ")" * (n // 2) + "\n", "def f" + "(" * n + "):\n    pass\n"]
         else:
-            variants = ["".join(f"int f{i}(int a) {{\n" for i in range(n)) + "}\n" * (n // 2), "int f" + "(" * n + ") {\n}\n", "{" * n + "int f(void) { }" + "}" * n + "\n"]
+            variants = ["".join(f"int f{i}(int a) {{\n" for i in range(n)) + "}\n" * (n // 2), "int f" + "(" * n + ") {\n}\n", "{" * n + "int f(void) { }" + "}" * n + "\n",
+                        # calls nested n deep: every `f(` is a header candidate without a body around the next one
+                        "int g(int x) {\n  return " + "f(" * n + "x" + ")" * n + ";\n}\n",
+                        "int g(int x) {\n  return " + "f(" * n + "x" + ")" * (n // 2) + ";\n}\n"]
         return variants
     raise ValueError(k)
 
